@@ -1,5 +1,11 @@
 package main
 
+import (
+	"fmt"
+	"sort"
+	"strings"
+)
+
 // Static (dataflow / syntactic) discharge of frame, lock and spawn obligations.
 
 type StaticResult struct {
@@ -18,9 +24,71 @@ func runStatic(prog *Prog, sc StaticCheck) *StaticResult {
 	switch sc.Kind {
 	case "codec-table":
 		return runCodecTable(prog, sc)
+	case "frame":
+		return runFrame(prog, sc)
 	default:
 		res.Obligations = 1
 		res.Failures = append(res.Failures, "unknown static check kind "+sc.Kind)
 	}
+	return res
+}
+
+// runFrame: frame obligations "function F (transitively) never stores to X", discharged
+// on the field-level modification set computed over the static call graph.
+//   args: func = contract name; forbid = comma-separated store targets
+//         (T.f | elem:T | map:T | append:T | deref:T | global:x); allow_unknown = "yes" to tolerate
+//         calls with unknown effects (listed in the evidence as assumption).
+func runFrame(prog *Prog, sc StaticCheck) *StaticResult {
+	res := &StaticResult{Name: sc.Name, Kind: sc.Kind}
+	pkgPath := modPath + "/" + sc.Pkg
+	fn := prog.FindFunc(pkgPath, sc.Args["func"])
+	if fn == nil {
+		res.Obligations = 1
+		res.Failures = append(res.Failures, "binding: function "+sc.Args["func"]+" not found")
+		return res
+	}
+	ms := prog.ModSetOf(fn)
+	var forbid []string
+	for _, f := range strings.Split(sc.Args["forbid"], ",") {
+		if f = strings.TrimSpace(f); f != "" {
+			forbid = append(forbid, f)
+		}
+	}
+	res.Obligations++
+	if ms.all && sc.Args["allow_unknown"] != "yes" {
+		var u []string
+		for k := range ms.unknown {
+			u = append(u, k)
+		}
+		sort.Strings(u)
+		res.Failures = append(res.Failures, fmt.Sprintf("%s: calls with unknown effects: %s", sc.Args["func"], strings.Join(u, "; ")))
+	} else {
+		res.Discharged++
+		if ms.all {
+			var u []string
+			for k := range ms.unknown {
+				u = append(u, k)
+			}
+			sort.Strings(u)
+			res.Trusted = append(res.Trusted, fmt.Sprintf("frame of %s: dynamic calls assumed not to write the forbidden locations: %s", sc.Args["func"], strings.Join(u, "; ")))
+		}
+	}
+	for _, f := range forbid {
+		res.Obligations++
+		if sites, ok := ms.sites[f]; ok && len(sites) > 0 {
+			res.Failures = append(res.Failures, fmt.Sprintf("%s writes %s at %s", sc.Args["func"], f, strings.Join(sites, ", ")))
+			continue
+		}
+		res.Discharged++
+		if len(res.Samples) < 2 {
+			res.Samples = append(res.Samples, map[string]interface{}{"obligation": fmt.Sprintf("%s#frame(no store to %s)", sc.Args["func"], f), "backend": "static mod-set"})
+		}
+	}
+	var keys []string
+	for k := range ms.sites {
+		keys = append(keys, k)
+	}
+	sort.Strings(keys)
+	res.Detail = map[string]interface{}{"func": sc.Args["func"], "writes": keys}
 	return res
 }
